@@ -438,9 +438,24 @@ func c14Gen(r *hx.Rng, n int, tier string) []string {
 		step = 1
 	}
 	sites := append(directedSites(step), directedNil()...)
+	// the parameters parsers of every key type and the PRF-based deriver key (params.go, deriver.go)
+	pstep := 3
+	if tier == "thorough" {
+		pstep = 1
+	}
+	sites = append(sites, directedParams(pstep)...)
+	sites = append(sites, directedDeriver(pstep)...)
 	lines = append(lines, sites...)
 	n += len(sites) // the random part keeps its size
 	for len(lines) < n {
+		if r.Chance(10) {
+			lines = append(lines, randomParams(r))
+			continue
+		}
+		if r.Chance(7) {
+			lines = append(lines, randomDeriver(r))
+			continue
+		}
 		x := r.Intn(100)
 		switch {
 		case x < 20: // keyset-level structure
